@@ -68,7 +68,9 @@ META = {
     'rule': 'random DAGs of 3-9 tasks (hidden topological order, shuffled definition order; edge kinds task_dep, setup, '
             'calc_dep (+delivered deps), file_dep->target, getargs, result_dep; groups; shared deps), oracle per task '
             '(run/up-to-date/error, ignored, ok/failed/error, teardown), flags, selection all/names/targets, runner '
-            'serial | thread k=1..4 x schedule policy | process k=2,3; non-trivial = has a dependency edge and at least '
+            'serial | thread k=1..4 x schedule policy | process k=2,3; plus structured large graphs (50-300 tasks: chain, fan-out, '
+            'fan-in, layers, ladder, groups; serial, thread -n 2..8, process); wave-4 shapes (wildcard task_dep, 2-3 actions, '
+            'several teardown callables, late group attributes, calc results with uptodate / unknown keys / str); non-trivial = has a dependency edge and at least '
             'one task reported; distinct = distinct rendered case + schedule',
     'assumptions': ['actions touch only their own targets (granularity assumption of M1 for thread mode: one transition = one thread '
                     'running from one queue operation to the next)',
@@ -79,10 +81,13 @@ META = {
     'models': ['M1'],
 }
 
-SIGNATURES = {}
+SIGNATURES = {'calc-wild-dep-dropped': runlib.sig_calc_wild_dropped}
 
 # generator knobs of this property: all edge kinds, every oracle feature
-KNOBS = {'p_dup_sel': 0.12, 'p_meta_names': 0.2, 'p_share_lists': 0.2, 'p_combo': 0.2, 'p_calc_then_fail': 0.2}
+KNOBS = {'p_dup_sel': 0.12, 'p_meta_names': 0.2, 'p_share_lists': 0.2, 'p_combo': 0.2, 'p_calc_then_fail': 0.2,
+         # wave 4 (coverage audit #10, #8): wildcard task_dep, multi-action tasks, several teardown callables, group
+         # attributes after sub-tasks, calc results with keys the dispatcher does not consume
+         'p_wild': 0.25, 'p_multi_action': 0.25, 'p_multi_teardown': 0.2, 'p_group_late': 0.25, 'p_calc_extra': 0.3}
 
 
 def plan(ctx, scale=1.0):
@@ -101,7 +106,23 @@ def plan(ctx, scale=1.0):
     size = 25 if quick else 60
     pool = [{'prop': PROP, 'gen': gen[i:i + size], 'shrink_s': 10.0} for i in range(0, len(gen), size)]
     procs = [(rng.randrange(1 << 60), dict(KNOBS, runner='process', n_max=7)) for _ in range(n_proc)]
-    return pool, [{'prop': PROP, 'gen': procs[i:i + 6], 'shrink_s': 10.0} for i in range(0, len(procs), 6)]
+    # scale (coverage audit #20): structured graphs of 50-300 tasks (deep chains, wide fan-out / fan-in, layers, diamond
+    # ladders, groups with wildcard deps), serial and -n 2..8 thread; a few real multiprocessing runs; small sample in quick
+    big = []
+    n_big_t, n_big_s, n_big_p = (6, 2, 1) if quick else (int(70 * scale), int(25 * scale), 6)
+    hi = 90 if quick else 300
+    shapes = ['fan_out', 'chain', 'fan_in', 'layers', 'ladder', 'groups']      # every shape in every tier
+    for i in range(n_big_t):
+        big.append((rng.randrange(1 << 60), {'runner': 'thread', 'gen_policy': True,
+                                              'bigcase': {'n_min': 50, 'n_max': hi, 'shape': shapes[i % 6]}}))
+    for i in range(n_big_s):
+        big.append((rng.randrange(1 << 60), {'runner': 'serial',
+                                              'bigcase': {'n_min': 50, 'n_max': hi, 'shape': shapes[(i + 5) % 6]}}))
+    pool += [{'prop': PROP, 'gen': big[i:i + 3], 'shrink_s': 10.0} for i in range(0, len(big), 3)]
+    bigp = [(rng.randrange(1 << 60), {'runner': 'process', 'bigcase': {'n_min': 50, 'n_max': 80 if quick else 120}})
+            for _ in range(n_big_p)]
+    return pool, ([{'prop': PROP, 'gen': procs[i:i + 6], 'shrink_s': 10.0} for i in range(0, len(procs), 6)] +
+                  [{'prop': PROP, 'gen': bigp[i:i + 2], 'shrink_s': 10.0} for i in range(0, len(bigp), 2)])
 
 
 def corpus_batches():
